@@ -168,6 +168,14 @@ func genTypeIn(r *coqfmt.Rng, depth, maxDepth, width int, used map[string]bool, 
 			embedded = true
 		}
 		tag := fmt.Sprintf(`dials:"%s"`, key)
+		if r.Chance(1, 6) {
+			// a help text: another tag whose VALUE may mention the format tags' keys
+			tag = fmt.Sprintf(`dialsdesc:"%s" `, coqfmt.Pick(r, []string{"the port", "set as yaml: key or json: key", "toml: section [x]",
+				"see json:name", "yaml:", "not dials: but env", "a, b; c = d"})) + tag
+			if r.Chance(1, 2) {
+				tag = fmt.Sprintf(`dials:"%s" dialsdesc:"in yaml: %s, in toml: %s, in json: %s"`, key, key, key, key)
+			}
+		}
 		if r.Chance(1, 8) {
 			for _, f := range []string{"json", "yaml", "toml"} {
 				if r.Chance(2, 3) {
